@@ -46,7 +46,6 @@ Definition packet_ok (seen cur : list iface) (states : list (list selection)) (p
 Definition obs_ok (seen cur : list iface) (states : list (list selection)) (o : obs) : bool :=
   match o with
   | OSent p => packet_ok seen cur states p
-  | OSentAny _ => true         (* interface not determined by the model; the implementation's is given as OSent *)
   | OIpAdd a => existsb (fun e => ip_eqb (i_ip e) a && selected_some states e) seen
   | OIpDel a => existsb (fun e => ip_eqb (i_ip e) a && (negb (iface_mem e cur) || unselected_some states e)) seen
   | _ => true
